@@ -262,7 +262,9 @@ class SimLoop(asyncio.BaseEventLoop):
         if sched:
             end_time = self._vnow + self._clock_resolution
             due = None
-            while sched and sched[0]._when < end_time:
+            vnow = self._vnow
+            # `<= vnow` matters once virtual time is so large that vnow + 1e-9 == vnow
+            while sched and (sched[0]._when <= vnow or sched[0]._when < end_time):
                 h = heapq.heappop(sched)
                 h._scheduled = False
                 if h._cancelled:
